@@ -457,6 +457,13 @@ static void apply_damage(file_t *F,const char *kind,long a,long b){
   else if(!strcmp(kind,"swap")){ if(a+1<F->npages){ page_t Q=F->pages[a+1]; unsigned char *c=malloc(P.len+Q.len); memcpy(c,F->bytes+Q.off,Q.len); memcpy(c+Q.len,F->bytes+P.off,P.len); memcpy(F->bytes+P.off,c,P.len+Q.len); free(c);} }
   else if(!strcmp(kind,"trunc")){ long at=P.off+b; if(at<0)at=0; if(at<F->len) F->len=at; }
   else if(!strcmp(kind,"setgp")){ long long g=b; unsigned char *pg=F->bytes+P.off; for(int i=0;i<8;i++) pg[6+i]=(unsigned char)((unsigned long long)g>>(8*i)); recrc(pg); }
+  else if(!strcmp(kind,"endgp")){ /* the last page of link a that carries a granule position claims b samples more: the link table of the open believes it */
+    int l=(int)a, j=-1; for(int i=0;i<F->npages;i++) if(F->pages[i].link==l&&F->pages[i].gp>=0) j=i;
+    if(j>=0){ long long g=F->pages[j].gp+b; unsigned char *pg=F->bytes+F->pages[j].off; for(int i=0;i<8;i++) pg[6+i]=(unsigned char)((unsigned long long)g>>(8*i)); recrc(pg); } }
+  else if(!strcmp(kind,"endpage")){ /* behind the last page of link a comes one more page of the same stream, holding nothing (no segments) and claiming b samples more */
+    int l=(int)a, j=-1; for(int i=0;i<F->npages;i++) if(F->pages[i].link==l&&F->pages[i].gp>=0) j=i;
+    if(j>=0){ page_t Q=F->pages[j]; unsigned char pg[27]; memcpy(pg,F->bytes+Q.off,27); pg[5]=0; long long g=Q.gp+b; for(int i=0;i<8;i++) pg[6+i]=(unsigned char)((unsigned long long)g>>(8*i));
+      unsigned long sq=0; for(int i=0;i<4;i++) sq|=(unsigned long)pg[18+i]<<(8*i); sq++; for(int i=0;i<4;i++) pg[18+i]=(unsigned char)(sq>>(8*i)); pg[26]=0; recrc(pg); splice(F,Q.off+Q.len,0,pg,27); } }
   else if(!strcmp(kind,"gphuge")){ unsigned char *pg=F->bytes+P.off; for(int i=0;i<8;i++) pg[6+i]=0xff; pg[13]=0x7f; if(b) pg[6]=(unsigned char)b; recrc(pg); }
   else if(!strcmp(kind,"cleareos")){ unsigned char *pg=F->bytes+P.off; pg[5]&=~4; recrc(pg); }
   else if(!strcmp(kind,"seteos")){ unsigned char *pg=F->bytes+P.off; pg[5]|=4; recrc(pg); }
